@@ -126,3 +126,35 @@ pub fn c06_q_unsync_try_unwrap() {
     kani::cover!(others == 2);
     kani::cover!(others == 0);
 }
+
+#[kani::proof]
+#[kani::unwind(4)]
+// bound: 1 closer + 1..=2 other handles; the pending close future is polled again with a *different* waker (select/join/timeout combinators do that) before the last handle is released
+// claim: the waker of the most recent poll is the one woken when the last other handle is released
+pub fn c06_q_unsync_repoll_other_waker() {
+    let root = unsafe { SharedFd::<Fd>::new_unchecked(Fd(9)) };
+    let h1 = root.clone();
+    let two: bool = kani::any();
+    let h2 = if two { Some(root.clone()) } else { None };
+    let mut closer = pin!(root.take());
+    let w0 = waker_id(0);
+    let w1 = waker_id(1);
+    let mut cx0 = Context::from_waker(&w0);
+    let mut cx1 = Context::from_waker(&w1);
+    assert!(closer.as_mut().poll(&mut cx0).is_pending());
+    if two {
+        drop(h2);
+    }
+    // polled again by another task / with another waker
+    assert!(closer.as_mut().poll(&mut cx1).is_pending());
+    let before = wakes_by(1);
+    drop(h1);
+    assert!(wakes_by(1) > before, "the task that polled last was not woken (stale waker kept)");
+    match closer.as_mut().poll(&mut cx1) {
+        Poll::Ready(Some(fd)) => drop(fd),
+        _ => unreachable!("close does not complete after every handle is gone"),
+    }
+    assert!(closed() == 1);
+    kani::cover!(two);
+    kani::cover!(!two);
+}
